@@ -8,5 +8,7 @@ CONSTANTS
   PreFix = FALSE
   CoarseCancel = FALSE
   Modes = {"none", "nowait", "wait"}
+  Modes2 = {"none"}
+  NeverExits = {}
   Mutation = "set_result_twice"
 INVARIANTS ResultAtMostOnce
